@@ -13,12 +13,14 @@ mod c06;
 mod c07;
 mod c08;
 mod c12;
+mod c13;
+mod c14;
 mod c15;
 mod c16;
 
 use ctx::{Ctx, Mode, Tier};
 
-const PROPS: &[&str] = &["C03", "C04", "C05", "C06", "C07", "C08", "C12", "C15", "C16"];
+const PROPS: &[&str] = &["C03", "C04", "C05", "C06", "C07", "C08", "C12", "C13", "C14", "C15", "C16"];
 
 fn run_check(ctx: &mut Ctx) {
     match ctx.prop.as_str() {
@@ -29,6 +31,8 @@ fn run_check(ctx: &mut Ctx) {
         "C07" => c07::run(ctx),
         "C08" => c08::run(ctx),
         "C12" => c12::run(ctx),
+        "C13" => c13::run(ctx),
+        "C14" => c14::run(ctx),
         "C15" => c15::run(ctx),
         "C16" => c16::run(ctx),
         p => panic!("machinery: unknown property {}", p),
